@@ -134,8 +134,15 @@ def lookupVar (n : Str) : M (Option (Act × Slot)) := do
 def lookupArr (n : Str) : M (Option (Act × Slot)) := do
   return lookupArrIn (← curAct) (← globalAct) n
 
+/-- the activation whose scope resolves type names: a record's own context defers to the
+    context that declared it -/
+def scopeAct : M Act := do
+  match (← get).acts.find? (fun a => !a.isComp) with
+  | some a => pure a
+  | none => throw (.crash .noActivation)
+
 def lookupList {β} (sel : Act → List (Str × β)) (n : Str) (global : Bool := true) : M (Option (Str × β)) := do
-  let a ← curAct
+  let a ← scopeAct
   let g ← globalAct
   match (sel a).find? (·.1 == n) with
   | some x => pure (some x)
@@ -173,7 +180,7 @@ def enumElemIn (a : Act) (v : Str) : Option Val :=
 
 /-- `Context::getEnumElement` -/
 def getEnumElement (v : Str) (global := true) : M (Option Val) := do
-  let a ← curAct
+  let a ← scopeAct
   let g ← globalAct
   match enumElemIn a v with
   | some x => pure (some x)
